@@ -112,6 +112,15 @@ def handle (j : Json) : Except String Json := do
     | .error e => pure (Json.mkObj [("raised", e)])
     | .ok r => pure (Json.mkObj [("created", jRes r), ("final", jRes (withPlugins r plugins)),
                                  ("detected", jDict (Res.new det none).attrs)])
+  | "agg" =>
+    let base ← pRes (← j.getObjVal? "base")
+    let dets ← (← getArr j "dets").toList.mapM (fun d => do
+      match d.getObjVal? "ok" with
+      | .ok r => do pure (DetOut.ok (← pRes r))
+      | .error _ => do pure (DetOut.fails (← getBool d "fails")))
+    match aggregate base dets with
+    | .error e => pure (Json.mkObj [("raised", e)])
+    | .ok r => pure (Json.mkObj [("final", jRes r)])
   | k => throw s!"unknown kind {k}"
 
 def main : IO Unit := serve handle
